@@ -74,7 +74,7 @@ COMMON_ASSUME = [
 ]
 
 MANIFEST_META = dict(
-    hook_commits=['0025b22'],
+    hook_commits=['0025b22', '27b8e20'],
     engines=dict(
         tok='key-space enumerator: round trip of poller keys through calloop\'s own conversion code, token factories, kernel cross-check',
         trans='exhaustive enumerator of protocol-conforming TransientSource sequences (mock child by direct calls, real children in a real loop)',
@@ -169,11 +169,14 @@ PROPS = {
     'C12': dict(
         legs=[dict(name='native', bin='wait', shards=16, timeout=dict(quick=400, thorough=2400))],
         parallel=8,
-        rule='evaluations = measured dispatch calls, one fresh loop per cell of the grid timeout {0, 5, 40, 200 ms, None} x armed timer {none, earlier, equal, later, expired, +1 h, unrepresentable} '
-             'x idle population {empty, ping with live handle, ping with all handles gone, channel with all senders gone, empty executor, not-ready level fd, ready fd with empty interest, fired one-shot, '
-             'disabled sources holding pending readiness}; every cell is non-trivial; distinct = distinct cells',
-        exhaustive_scope='the whole grid (315 cells) once (quick) or five times (thorough)',
-        assumptions=COMMON_ASSUME + ['lower bounds (no spinning) are exact; the upper bound is limit + max(150 ms, 2 x limit) and only three consecutive exceedances of the same cell count, a minority is recorded as inconclusive'],
+        rule='evaluations = measured dispatch calls, one fresh loop per cell of the grid timeout {0, 5, 40, 200 ms, None} x armed timer {none, earlier, equal, later, expired, +1 h, unrepresentable, '
+             'earlier after set_deadline from unrepresentable} x idle population {empty, ping with live handle, ping with all handles gone, channel with all senders gone, empty executor, not-ready level fd, '
+             'ready fd with empty interest, fired one-shot, disabled sources holding pending readiness, self-removed source whose slot was reused, sync channel drained exactly at its bound, '
+             'rendezvous channel after a refused try_send, channel after exactly 1024 messages, lifecycle source whose before_sleep takes 60 ms, signals interrupting the wait (EINTR) at 30/55/75 %, both}; '
+             'every cell is non-trivial; distinct = distinct cells',
+        exhaustive_scope='the whole grid (640 cells) once (quick) or five times (thorough)',
+        assumptions=COMMON_ASSUME + ['lower bounds (no spinning) are exact; the upper bound is limit + max(150 ms, 2 x limit) and only three consecutive exceedances of the same cell count, a minority is recorded as inconclusive',
+                                     'time spent inside the user\'s own before_sleep hook is the user\'s: a timeout runs from the start of the wait; a timer deadline is absolute, so with a slow hook and a deadline as the limit the ceiling is max(limit, hook) + 0.6 x min(limit, hook)'],
         level_text='grid exploration with wall-clock measurement: elapsed >= 0.9 x min(timeout, time to earliest deadline) - 1 ms, the limiting timer fired in that dispatch, no idle source was invoked, '
                    'zero timeout and the upper bound checked with retries; with None and nothing armed a helper thread pings after 30 ms.',
         level_note='trusted: Instant::now around the call; scheduler latency below 150 ms on three consecutive tries',
@@ -219,12 +222,13 @@ PROPS = {
         exhaustive_scope='all protocol-conforming sequences up to the lengths given in notes, at most 3 children per sequence',
         level_text='bounded-exhaustive runtime exploration: every protocol-conforming sequence up to length 6 (quick) / 8 (thorough) is executed '
                    'against the real TransientSource with an instrumented child, and up to length 5 / 7 with real fd and timer children in a real loop; '
-                   'monitors check registration state at every quiescent point. Longer sequences are not covered.',
+                   'monitors check registration state at every quiescent point, and the mock child reports every registration made while another child of the wrapper is still registered. Longer sequences are not covered.',
         level_note='trusted: the protocol model that decides which sequences conform and which child is current; the mock child\'s own bookkeeping; '
                    '/proc/self/fdinfo and the timer-heap statistic hook as witnesses for real children',
         technique='runtime monitoring: bounded-exhaustive sequence enumeration with invariant monitors at quiescent points',
-        assumptions=COMMON_ASSUME + ['protocol = parent register/unregister alternate, reregister only while registered, '
-                                     'after a change made while registered the next registration call is reregister',
+        assumptions=COMMON_ASSUME + ['protocol = parent register/unregister alternate, reregister only while registered; after a change made while '
+                                     'registered the wrapper asks for a re-registration, and the next registration call is either that reregister or the '
+                                     'parent\'s own unregister (the parent was disabled or removed first)',
                                      'replace() on an empty wrapper and the effect of a parent register on a disabled child are not judged'],
     ),
     'C20': dict(
